@@ -76,7 +76,7 @@ def checkIngestCapacity (s : Sys) (o : Obs) : Except Err (Sys × Bool) :=
   match s.buf.checkCapacity o.rate o.duration with
   | .error e => .error e
   | .ok bufferCap =>
-    if s.cl.checkIngestCapacity o.ingestDemand s.maxIngest then
+    if s.cl.checkIngestCapacity o.ingestDemand s.maxIngest s.provIngest then
       if s.provIngest + o.ingestDemand ≤ s.maxIngest then
         let s1 := if bufferCap then { s with provIngest := s.provIngest + o.ingestDemand } else s
         .ok (s1, bufferCap)
